@@ -106,7 +106,8 @@ L_PFrame(z, r, ln) ==
        ELSE IF ~c1.txn THEN R([z1 EXCEPT !.vis = Append(@, e)], 0)
        ELSE IF Active(z, k) THEN R([z1 EXCEPT !.txs[k + 1].posts = Append(@, e)], 0)
        \* the transaction ended between the first and the last frame of the post: nothing is demanded of this delivery
-       ELSE R([z1 EXCEPT !.refused = @ \cup {e.m}], 0)
+       \* (it must never be seen; the endpoint may refuse it with a transaction error)
+       ELSE R([z1 EXCEPT !.refused = @ \cup {e.m}, !.refOwed = @ + 1], 0)
 
 (* ------------------------------------------------------------ listener side: what the endpoint does *)
 L_EFrame(z, r, ln) ==
